@@ -190,6 +190,7 @@ def decide(pid, prop, tier, seed, results, extra, t0, args):
                 f = nat["failures"][0]
                 violations.append({"contract": cname, "case": "native", "obligation": f"{cname}/native:{f['detail'].split(':')[0][:60]}", "verdict": "native-fail", "how": "bounded native check", "witness": jsonable(f["case"]), "replay_detail": f["detail"], "closed_path": True})
     for cname, case, why in unsupported:
+        print(f"UNSUPPORTED property={pid} contract={cname} case={case}: {why[:300]} -> {'bounded stand-in' if cname in native_by_contract else 'undecided'}", file=sys.stderr)
         if cname not in native_by_contract:
             undecided.append({"contract": cname, "case": case, "obligation": f"{cname}/unsupported", "verdict": "unsupported", "note": why})
 
@@ -243,7 +244,11 @@ def decide(pid, prop, tier, seed, results, extra, t0, args):
             continue
         printed.add(key)
         print(f"KNOWN-FINDING: property={pid} {f['id']}: {f['text']}")
+    seen_names = set()
     for v in real_violations:
+        if v["obligation"] in seen_names:
+            continue
+        seen_names.add(v["obligation"])
         payload = dict(v)
         payload["property"] = pid
         payload["replay_cmd"] = f"./bin/check {pid} --replay <this file>"
